@@ -18,13 +18,21 @@ LA_SYMS = {
 EXTRA = {"LD": ("layer", "D"), "Sx": ("str", "r.ab"), "Le": ("list", []), "Laa": ("list", ["r.a", "r.a"]), "Sc": ("str", "b"),
          "PK": ("peek",)}      # observation of the architecture in the middle of its definition (never rejected, never changes anything)
 ALL = {**LA_SYMS, **EXTRA}
+# the same symbols under names that are awkward in message templates (braces, percent signs, blanks) - an offending call
+# must still be rejected with a configuration error whose construction does not trip over the name
+ALT = {"LA": ("layer", "{core}"), "LB": ("layer", "%s {0}"), "LC": ("layer", "c{}"), "LD": ("layer", "D%d"),
+       "Sa": ("str", "r.{a}"), "Sb": ("str", "r.%b"), "La": ("list", ["r.{a}"]), "Lb": ("list", ["r.%b"]), "Lab": ("list", ["r.{a}", "r.%b"]),
+       "RX": ("regex", r"r\.c\d{2}.*"), "WL": ("with_layer",), "Sx": ("str", "r.{a}{b}"), "Le": ("list", []), "Laa": ("list", ["r.{a}", "r.{a}"]),
+       "Sc": ("str", "%b"), "PK": ("peek",)}
+TABLES = {"plain": ALL, "awkward": ALT}
 
 
-def la_spec(hist):
+def la_spec(hist, table=None):
     """Documented rules: -> (index of the first rejected call or len(hist), accepted listing)."""
+    table = table or ALL
     arch = []          # list of [name, modules or None(pending)]
     for i, s in enumerate(hist):
-        c = ALL[s]
+        c = table[s]
         pending = [x for x in arch if not x[1]]
         if c[0] in ("with_layer", "peek"):
             continue
@@ -46,7 +54,9 @@ def la_spec(hist):
     return len(hist), arch
 
 
-def _job(hists):
+def _job(args):
+    hists, tname = args
+    ALL = TABLES[tname]
     enc = rules.Enc()
     lenc = layers.LEnc(enc)
     wire = [15, [[lenc.la_call(ALL[s]) for s in h if s != "PK"] for h in hists]]     # the model has no observation call: it sees the history without them
@@ -55,10 +65,11 @@ def _job(hists):
     nontriv = 0
     for h, m in zip(hists, res):
         k, fam, listing, _ = layers.run_la_impl([ALL[s] for s in h])
-        sk, sarch = la_spec(h)
+        sk, sarch = la_spec(h, ALL)
         mk, march = m[0], lenc.dec_larch(m[1])
+        stats["names_" + tname] = stats.get("names_" + tname, 0) + 1
         stats["accepted_all" if k == len(h) else "rejected"] = stats.get("accepted_all" if k == len(h) else "rejected", 0) + 1
-        case = dict(la_history=list(h), impl_accepted_calls=k, impl_error=fam, impl_listing=listing, documented_accepted_calls=sk,
+        case = dict(la_history=list(h), names=tname, calls=[list(ALL[x]) for x in h], impl_accepted_calls=k, impl_error=fam, impl_listing=listing, documented_accepted_calls=sk,
                     documented_listing=[[a, b] for a, b in sarch], model_accepted_calls=mk)
         if k != sk:
             what = (f"call #{k} ({h[k]}) rejected although the documented rules accept it" if k < sk else
@@ -101,7 +112,9 @@ def run(ctx: Ctx):
             for j in range(i, len(base) + 1):
                 hists.append(tuple(base[:i] + ["PK"] + base[i:j] + ["PK"] + base[j:]))
     chunk = 4000
-    jobs = [hists[i:i + chunk] for i in range(0, len(hists), chunk)]
+    jobs = [(hists[i:i + chunk], "plain") for i in range(0, len(hists), chunk)]
+    awkward = [h for h in hists if len(h) <= 3] + hists[-(20000 if ctx.quick else 200000) // 4:]
+    jobs += [(awkward[i:i + chunk], "awkward") for i in range(0, len(awkward), chunk)]
     with Pool(NCPU) as pool:
         rs = pool.map(_job, jobs, chunksize=1)
     for r in rs:
@@ -128,8 +141,13 @@ def replay(ctx: Ctx, path: str) -> int:
         print("replay kind not supported:", json.dumps(c)[:300])
         return 2
     h = c["la_history"]
-    k, fam, listing, _ = layers.run_la_impl([ALL[s] for s in h])
-    sk, sarch = la_spec(h)
+    table = TABLES[c.get("names", "plain")]
+    k, fam, listing, _ = layers.run_la_impl([table[s] for s in h])
+    sk, sarch = la_spec(h, table)
+    if k < len(h) and fam != "ConfigError":
+        print(h, "offending call raised", fam)
+        print(f"VIOLATION property=C16 replay={path}")
+        return 1
     print(h, "impl accepted", k, fam, listing, "documented", sk, sarch)
     if k != sk or [(a, list(b)) for a, b in listing] != [(a, list(b)) for a, b in sarch]:
         print(f"VIOLATION property=C16 replay={path}")
